@@ -446,7 +446,7 @@ PROPS = {
                 quick=220, thorough=4000,
                 relevant=lambda f: f["kind"] in ({"oracle-range", "oracle-prefix", "oracle-len", "oracle-first", "oracle-last", "oracle-isempty", "inv", "block-index", "block-content"} | COMMON_KINDS),
                 nontrivial=lambda st: TREE_NONTRIVIAL(st) and st.get("scans_nonempty", 0) >= 1),
-    "C07": dict(engine="tree", profiles=[("tree", 3, False), ("lvl", 3, False), ("moves", 1, False), ("ingest", 1, False), ("drop", 1, False), ("tree", 1, True)], n_ops=120,
+    "C07": dict(engine="tree", profiles=[("tree", 3, False), ("lvl", 3, False), ("moves", 2, False), ("ingest", 1, False), ("drop", 1, False), ("tree", 1, True)], n_ops=120,
                 quick=400, thorough=6000,
                 relevant=lambda f: f["kind"] in ({"inv", "readpaths"} | COMMON_KINDS),
                 nontrivial=TREE_NONTRIVIAL),
@@ -481,7 +481,7 @@ PROPS["C19"] = dict(engine="tree", profiles=[("fifo", 3, False), ("fifo", 1, Tru
                     relevant=lambda f: f["kind"] in ({"fifo-deeper-level", "fifo-expired-kept", "fifo-not-oldest", "fifo-within-limits", "oracle-get", "oracle-contains", "oracle-range", "agree", "inv", "reopen-diff"} | COMMON_KINDS),
                     nontrivial=lambda st: st.get("fifo_effective", 0) >= 1 and st.get("flush_steps", 0) >= 2 and st.get("gets_from_tables", 0) >= 1)
 
-PROPS["C11"] = dict(engine="multi", profiles=[("tree", 1, False), ("ingest", 1, False), ("tree", 1, True), ("drop", 1, False), ("blob", 1, True)], n_ops=100,
+PROPS["C11"] = dict(engine="multi", profiles=[("tree", 1, False), ("ingest", 1, False), ("tree", 1, True), ("drop", 1, False), ("blob", 1, True), ("table", 1, False)], n_ops=100,
                     quick=50, thorough=1000, k=dict(quick=(4, 3), thorough=(8, 4)), strip_ops=("droprange",),
                     relevant=lambda f: f["kind"] in ({"config-diff", "oracle-get", "oracle-contains", "oracle-range", "oracle-prefix", "oracle-len", "oracle-first", "oracle-last", "oracle-isempty", "agree", "inv", "readpaths", "resolve", "reopen-diff", "marks"} | COMMON_KINDS),
                     nontrivial=lambda st: st.get("flush_steps", 0) >= 1 and st.get("gets_from_tables", 0) >= 1)
